@@ -146,6 +146,10 @@ pub enum Strategy {
     S5LongRemainder,
     /// remainder commitment replaced by a digest of something else
     S6WrongRemainderCommitment,
+    /// one commitment MORE than the schedule has: the remainder commitment made before the
+    /// positions were drawn is the honest one, and a further commitment - to a remainder
+    /// interpolated through the queried points after the positions are known - is appended last
+    S8ExtraCommitment,
 }
 
 pub struct Built<E: FieldElement, H: ElementHasher<BaseField = E::BaseField>> {
@@ -159,6 +163,8 @@ pub struct Built<E: FieldElement, H: ElementHasher<BaseField = E::BaseField>> {
     pub last_evals: Vec<E>,
     pub remainder: Vec<E>,
     pub positions: Vec<usize>,
+    /// the proof-of-work nonce the positions were drawn with
+    pub nonce: u64,
     pub proof: FriProof,
 }
 
@@ -234,7 +240,7 @@ where
     coin.reseed(rem_commitment);
     let positions = coin.draw_integers(cfg.num_queries, cfg.domain(), nonce).expect("harness: positions");
 
-    if *strategy == Strategy::S1AdaptiveRemainder {
+    if *strategy == Strategy::S1AdaptiveRemainder || *strategy == Strategy::S8ExtraCommitment {
         // fold the positions down to the remainder domain and interpolate through the values there
         let mut pos = positions.clone();
         let mut d = cfg.domain();
@@ -262,6 +268,9 @@ where
 
     let mut commitments = roots.clone();
     commitments.push(rem_commitment);
+    if *strategy == Strategy::S8ExtraCommitment {
+        commitments.push(H::hash_elements(&remainder));
+    }
     if let Strategy::S4SwapCommitments { a } = strategy {
         if a + 1 < commitments.len() {
             commitments.swap(*a, a + 1);
@@ -296,7 +305,7 @@ where
     bytes.extend_from_slice(&rb);
     bytes.push(0); // one partition
     let proof = FriProof::read_from_bytes(&bytes).expect("harness: FriProof wire form");
-    Built { layers, roots, commitments, alphas_used, last_evals, remainder, positions, proof }
+    Built { layers, roots, commitments, alphas_used, last_evals, remainder, positions, nonce, proof }
 }
 
 // REFERENCE FRI VERIFIER (spec level, over the full committed data)
